@@ -515,7 +515,15 @@ func addHost(m map[string]extFn) {
 			b, err := json.Marshal(s)
 			return tuple{bytesValue(b), ex.errOrNil(err)}
 		}
-		panic(unsupported("encoding/json.Marshal of non-string or symbolic value (reflection)"))
+		if s, ok := i.v.(*SymStr); ok && i.t != nil && isString(i.t) {
+			return tuple{ex.jsonEncodeString(s.b), iface{}}
+		}
+		if ex.stubJSON {
+			// the harness asked for value marshalling to be replaced by a token
+			// (reflection is not executed); only the surrounding text is checked
+			return tuple{bytesValue([]byte("0")), iface{}}
+		}
+		panic(unsupported("encoding/json.Marshal of a non-string value (reflection)"))
 	}
 	m["encoding/json.Unmarshal"] = func(ex *Exec, fr *frame, a []value) value {
 		data, ok := concreteBytes(a[0])
